@@ -69,7 +69,7 @@ func hasProp(ps []string, p string) bool {
 }
 
 var k1Kinds = map[string]bool{"typeassert": true, "index": true, "slice": true, "nilmap": true, "nilderef": true, "div": true,
-	"panic": true, "nilfunc": true, "nilrecv": true, "makeslice": true, "ifacecmp": true, "mapkey": true}
+	"panic": true, "nilfunc": true, "nilbox": true, "nilrecv": true, "makeslice": true, "ifacecmp": true, "mapkey": true}
 
 func cmdCheck(args []string) int {
 	fs := flag.NewFlagSet("check", flag.ExitOnError)
@@ -255,21 +255,21 @@ func cmdCheck(args []string) int {
 	ev.Violations = violations
 	cov := map[string]any{
 		"obligations": total, "discharged": proved,
-		"checker_cmd":                fmt.Sprintf("/verif/bin/govc check --property %s --tier %s  (VC generator over go/ssa of /repo working tree, -tags verif; solvers z3-new 5.1.0, z3 4.8.12, cvc5 1.0 raced)", P, *tier),
-		"trusted_base":               trustedBase(e, keys),
-		"functions_under_contract":   fnsUnder,
-		"structural_obligations":     structural,
-		"solver_wins":                solverStats.wins,
-		"solver_ms":                  solverStats.ms,
-		"reachability_covers":        covers,
-		"vacuous_functions":          vacuous,
-		"samples":                    samples,
-		"known_findings_hit":         len(kfHit),
-		"contract_scan_assume_hits":  e.Specs.Scan,
-		"spec_errors":                specBroken,
-		"integer_semantics":          "mathematical integers with the declared type's range as a fact on inputs; overflow NOT checked (unchecked assumption)",
-		"undecided_clauses":          undecidedClauses[P],
-		"bounded":                    []string{},
+		"checker_cmd":               fmt.Sprintf("/verif/bin/govc check --property %s --tier %s  (VC generator over go/ssa of /repo working tree, -tags verif; solvers z3-new 5.1.0, z3 4.8.12, cvc5 1.0 raced)", P, *tier),
+		"trusted_base":              trustedBase(e, keys),
+		"functions_under_contract":  fnsUnder,
+		"structural_obligations":    structural,
+		"solver_wins":               solverStats.wins,
+		"solver_ms":                 solverStats.ms,
+		"reachability_covers":       covers,
+		"vacuous_functions":         vacuous,
+		"samples":                   samples,
+		"known_findings_hit":        len(kfHit),
+		"contract_scan_assume_hits": e.Specs.Scan,
+		"spec_errors":               specBroken,
+		"integer_semantics":         "mathematical integers with the declared type's range as a fact on inputs; overflow NOT checked (unchecked assumption)",
+		"undecided_clauses":         undecidedClauses[P],
+		"bounded":                   []string{},
 	}
 	ev.Coverage = cov
 	ev.Assumptions = assumptionsFor(e, keys)
